@@ -89,6 +89,11 @@ class Atoms:
         if key in self.table:
             return self.table[key]
         v = self._fresh(kind, arg)
+        # congruence with every earlier atom of the same function
+        for (k2, _k), w in list(self.table.items()):
+            if k2 == kind and k2 in ('exp', 'log', 'sqrt'):
+                self.facts.append(z3.Implies(arg == self.info[str(w)][1],
+                                             v == w))
         self.table[key] = v
         if kind == 'exp':
             # exact facts about the real exponential
@@ -99,6 +104,9 @@ class Atoms:
             self._relate_exp(v, arg, ctx)
             self._relate_exp_sum(v, arg, ctx)
         elif kind == 'log':
+            for (u, acc) in getattr(self, 'log_numerals', {}).values():
+                if not z3.is_rational_value(arg):
+                    self.facts.append(z3.Implies(arg == u, v == acc))
             self._relate_congruent(v, kind, arg, ctx)
             self.facts.append(z3.Implies(arg > 1, v > 0))
             self.facts.append(z3.Implies(z3.And(arg > 0, arg < 1), v < 0))
@@ -550,6 +558,19 @@ class Ctx:
                         continue
                     acc = acc + sign * k * self.atoms.get(
                         'log', z3.RealVal(p), self)
+            # congruence between log(<symbolic>) atoms and this numeral
+            at = self.atoms
+            nums = getattr(at, 'log_numerals', None)
+            if nums is None:
+                nums = at.log_numerals = {}
+            key = u.sexpr()
+            if key not in nums:
+                nums[key] = (u, acc)
+                for (k2, _k), w in list(at.table.items()):
+                    if k2 == 'log':
+                        warg = at.info[str(w)][1]
+                        if not z3.is_rational_value(warg):
+                            at.facts.append(z3.Implies(warg == u, w == acc))
             return acc
         k = u.decl().kind() if z3.is_app(u) else None
         if k == z3.Z3_OP_MUL:
